@@ -120,12 +120,12 @@ def frame_values(ti, t, f):
 
 def build(lp):
     """lp: {'types': [{'name','channels':[{'name','code','dims'}], 'n'}], 'order': [type index per IFLR] or None,
-            'empty_at': int or None, 'layout': 'one'|'split'}"""
+            'empty_at': int or None, 'layout': 'one'|'split', 'extra_sets': [set models written after the FRAME set]}"""
     types = lp['types']
     order = lp.get('order')
     if order is None:
         order = [ti for ti, t in enumerate(types) for _ in range(t['n'])]
-    sets = [c03.FILE_HEADER, c03.ORIGIN_FULL if lp.get('origin') == 'full' else c03.ORIGIN, channel_set(types), frame_set(types)]
+    sets = [c03.FILE_HEADER, c03.ORIGIN_FULL if lp.get('origin') == 'full' else c03.ORIGIN, channel_set(types), frame_set(types)] + list(lp.get('extra_sets', []))
     recs = [{'eflr': True, 'type': c03.lrtype_for(s), 'payload': c03.encode_set(s)} for s in sets]
     seen = [0] * len(types)
     iflr_rec_index = [[] for _ in types]
